@@ -155,7 +155,9 @@ theorem measurement_active {f f' : Filter} {cfg : Cfg} {id : LinkId} {fwd : Bool
 theorem offsetWindow_some {l : FLink} {cfg : Cfg} {est : E} {w : Window}
     (h : offsetWindow l cfg est = .ok (some w)) :
     ∃ e delay noise, l.ext = some e ∧ e.usable = true ∧ e.offsets.asRef.isEmpty = false ∧
-      l.estimates = some (delay, noise) ∧ F64.lt (halfWindow cfg e delay noise) cfg.maxW = true := by
+      l.estimates = some (delay, noise) ∧ F64.lt (halfWindow cfg e delay noise) cfg.maxW = true ∧
+      F64.ge (halfWindow cfg e delay noise) F64.zero = true ∧
+      ∃ x, w = ⟨F64.sub x (halfWindow cfg e delay noise), F64.add x (halfWindow cfg e delay noise)⟩ := by
   unfold offsetWindow at h
   split at h
   · cases h
@@ -175,7 +177,9 @@ theorem offsetWindow_some {l : FLink} {cfg : Cfg} {est : E} {w : Window}
         · rename_i delay noise hest
           split at h
           · rename_i hlt
-            exact ⟨e, delay, noise, he, hcond.2, hcond.1, hest, hlt⟩
+            simp only [Bool.and_eq_true] at hlt
+            simp only [pure, Except.pure, Except.ok.injEq, Option.some.injEq] at h
+            exact ⟨e, delay, noise, he, hcond.2, hcond.1, hest, hlt.2, hlt.1, _, h.symm⟩
           · simp [pure, Except.pure] at h
 
 theorem judge_use_external {g : Filter} {cfg : Cfg} {l : FLink} (hext : l.ext.isSome)
